@@ -5,7 +5,7 @@ use std::collections::{BTreeMap, BTreeSet};
 use std::panic::{catch_unwind, AssertUnwindSafe};
 use std::path::{Path, PathBuf};
 use std::sync::atomic::Ordering;
-use std::sync::Arc;
+use std::sync::{Arc, Mutex};
 
 use arroy::{Distance, Reader, Writer};
 use heed::types::Bytes;
@@ -147,6 +147,9 @@ pub struct Exec<'p> {
     last_mem_hint: Option<usize>,
     /// long-lived Writer instances per index slot (when the plan says writers are reused across transactions)
     writers: Vec<Option<(Metric, std::rc::Rc<dyn std::any::Any>)>>,
+    /// cfg.reuse_builder: one long-lived ArroyBuilder per index slot
+    long_builders: std::collections::HashMap<usize, LongBuilder>,
+    use_long_builder: bool,
 }
 
 fn panic_msg(e: Box<dyn std::any::Any + Send>) -> String {
@@ -235,6 +238,8 @@ impl<'p> Exec<'p> {
             focus_any: false,
             last_mem_hint: None,
             writers: (0..n).map(|_| None).collect(),
+            long_builders: Default::default(),
+            use_long_builder: false,
         };
         ex.open_env();
         ex
@@ -286,6 +291,8 @@ impl<'p> Exec<'p> {
             focus_any: true,
             last_mem_hint: None,
             writers: (0..n).map(|_| None).collect(),
+            long_builders: Default::default(),
+            use_long_builder: false,
         };
         ex.open_env();
         ex
@@ -345,6 +352,7 @@ impl<'p> Exec<'p> {
         for w in self.writers.iter_mut() {
             *w = None;
         }
+        self.long_builders.clear();
     }
 
     pub fn close_env(&mut self) {
@@ -549,6 +557,15 @@ impl<'p> Exec<'p> {
             }
             if must_be_unchanged && before != after {
                 self.report(&["C19"], "rejected_call_changed_db", format!("{what} on index {index} changed the database"))?;
+            }
+            // "hence with the same items, forest and query answers": what a writer and a reader say about
+            // every *other* index must be what it was, whatever keys the operation put next to theirs
+            if self.world.indexes.len() > 1 && (self.focus == "C07" || self.step_no % 4 == 0) {
+                for o in 0..self.world.indexes.len() {
+                    if o != ix {
+                        self.check_staleness_pub(o, &["C07"])?;
+                    }
+                }
             }
             self.decode_check(&after)?;
             self.trace.write_u64(dump_hash(&after));
@@ -836,6 +853,7 @@ impl<'p> Exec<'p> {
         if self.plan.cfg.reuse_writer {
             self.writers[ix] = new_writer.map(|w| (to, w));
         }
+        self.long_builders.remove(&ix);
         self.out.stats.ops += 1;
         self.out.stats.probe(if to == im.metric { "metric_identity" } else { "metric_change" });
         if self.focus == "C18" {
@@ -1082,6 +1100,10 @@ impl<'p> Exec<'p> {
         if let Some(f) = finding {
             let mut props = vec!["C06"];
             props.extend_from_slice(extra);
+            // "makes the index demand a build ... refuses to open under the old one"
+            if self.metric_changed[ix] && !props.contains(&"C18") {
+                props.push("C18");
+            }
             self.report(&props, "staleness", format!("index {}: {f}", im.index))?;
         }
         Ok(())
@@ -1122,6 +1144,20 @@ impl<'p> Exec<'p> {
         let saved_tmpdir = std::env::var_os("TMPDIR");
         if env_mode {
             std::env::set_var("TMPDIR", &tmp);
+        }
+        if self.use_long_builder && bad_tmpdir.is_none() {
+            let res = self.build_with_long_builder(ix, n_trees, split_after, mem, seed, &bctx);
+            self.last_build_polls = bctx.polls.load(Ordering::SeqCst);
+            self.out.stats.polls += self.last_build_polls;
+            self.last_build_steps = bctx.steps_seen.lock().unwrap().clone();
+            if bctx.budget_exceeded.load(Ordering::SeqCst) {
+                return BuildResult::Err("TickBudget".into(), format!("no termination within {budget} polls"));
+            }
+            return match res {
+                Ok(Ok(())) => BuildResult::Ok,
+                Ok(Err(e)) => BuildResult::Err(err_kind(&e), e.to_string()),
+                Err(p) => BuildResult::Panic(panic_msg(p)),
+            };
         }
         let wrc = if bad_tmpdir.is_none() { Some(self.writer_rc(ix)) } else { None };
         let wtxn = self.wtxn.as_mut().unwrap();
@@ -1176,6 +1212,72 @@ impl<'p> Exec<'p> {
     /// SAME `ArroyBuilder` object whose cancellation closure was replaced by one that never cancels
     /// (an application keeping its configured builder). Returns both results.
     #[allow(clippy::too_many_arguments)]
+    /// Build slot `ix` with its long-lived builder (created on first use with the given options).
+    fn build_with_long_builder(
+        &mut self,
+        ix: usize,
+        n_trees: Option<usize>,
+        split_after: Option<usize>,
+        mem: Option<usize>,
+        seed: u64,
+        bctx: &Arc<BuildCtx>,
+    ) -> std::thread::Result<arroy::Result<()>> {
+        let im = self.world.indexes[ix].clone();
+        let db = self.db();
+        let mut lb = match self.long_builders.remove(&ix) {
+            Some(lb) if lb.metric == im.metric => lb,
+            _ => {
+                let slot: Arc<Mutex<Option<Arc<BuildCtx>>>> = Arc::new(Mutex::new(None));
+                let private = self.plan.cfg.private_tmpdir;
+                let tmp = self.tmpdir.clone();
+                let shared = <crate::util::SharedRng as SeedableRng>::seed_from_u64(seed);
+                let b: Box<dyn std::any::Any> = with_metric!(im.metric, D, {
+                    let w: &'static Writer<D> = Box::leak(Box::new(writer::<D>(db, im.index, im.dim, &tmp, private)));
+                    let rng: &'static mut crate::util::SharedRng = Box::leak(Box::new(shared.clone()));
+                    let mut b: arroy::ArroyBuilder<'static, D, crate::util::SharedRng> = w.builder(rng);
+                    if let Some(n) = n_trees {
+                        b.n_trees(n);
+                    }
+                    if let Some(s) = split_after {
+                        b.split_after(s);
+                    }
+                    if let Some(m) = mem {
+                        b.available_memory(m);
+                    }
+                    let (s1, s2) = (slot.clone(), slot.clone());
+                    b.cancel(move || {
+                        let c = s1.lock().unwrap().clone();
+                        c.map_or(false, |c| c.poll())
+                    });
+                    b.progress(move |p| {
+                        let c = s2.lock().unwrap().clone();
+                        if let Some(c) = c {
+                            c.progress(p)
+                        }
+                    });
+                    Box::new(b) as Box<dyn std::any::Any>
+                });
+                self.out.stats.probe("long_lived_builder_created");
+                LongBuilder { b, rng: shared, slot, opts: (n_trees, split_after, mem), metric: im.metric }
+            }
+        };
+        *lb.slot.lock().unwrap() = Some(bctx.clone());
+        // every build draws from the seed of its own step, whatever the builder went through before
+        lb.rng.reseed(seed);
+        let wtxn = self.wtxn.as_mut().unwrap();
+        let res = with_metric!(im.metric, D, {
+            let b = lb.b.downcast_mut::<arroy::ArroyBuilder<'static, D, crate::util::SharedRng>>().expect("builder type");
+            catch_unwind(AssertUnwindSafe(|| b.build(wtxn)))
+        });
+        *lb.slot.lock().unwrap() = None;
+        if res.is_ok() {
+            // (a builder that unwound out of `build` is dropped)
+            self.out.stats.probe("build_on_long_lived_builder");
+            self.long_builders.insert(ix, lb);
+        }
+        res
+    }
+
     pub fn raw_build_retry_same_builder(
         &mut self,
         ix: usize,
@@ -1259,6 +1361,14 @@ impl<'p> Exec<'p> {
         fault: &Fault,
     ) -> R<()> {
         self.ensure_txn();
+        // a long-lived builder keeps the options of its first build
+        let long = self.plan.cfg.reuse_builder && matches!(fault, Fault::None | Fault::CancelAt { .. });
+        let (n_trees, split_after, mem) = match (self.plan.cfg.builder_opts.get(ix), self.long_builders.get(&ix)) {
+            _ if !long => (n_trees, split_after, mem),
+            (Some(o), _) => *o,
+            (None, Some(lb)) if lb.metric == self.world.indexes[ix].metric => lb.opts,
+            _ => (n_trees, split_after, mem),
+        };
         let tainted_before = self.txn_had_failed_build;
         self.last_mem_hint = mem;
         self.ctx.leaf_batches.store(0, Ordering::SeqCst);
@@ -1270,7 +1380,9 @@ impl<'p> Exec<'p> {
             Fault::BadTmpdir { mode } => (None, Some(mode.as_str())),
             _ => (None, None),
         };
+        self.use_long_builder = long;
         let res = self.raw_build(ix, n_trees, split_after, mem, seed, cancel_at, bad_tmp);
+        self.use_long_builder = false;
         self.trace.write_str(&format!("{:?}", matches!(res, BuildResult::Ok)));
         let index = before_model.index;
         match &res {
@@ -1720,6 +1832,17 @@ impl<'p> Exec<'p> {
 pub fn harness_error(msg: &str) -> ! {
     eprintln!("HARNESS-ERROR {msg}");
     std::process::exit(2);
+}
+
+/// A builder that outlives its transactions (an application that configures one `ArroyBuilder` and
+/// calls `build` on it again and again). The writer and the generator it borrows are leaked: a few
+/// hundred bytes per run that uses this mode.
+pub struct LongBuilder {
+    b: Box<dyn std::any::Any>,
+    rng: crate::util::SharedRng,
+    slot: Arc<Mutex<Option<Arc<BuildCtx>>>>,
+    pub opts: (Option<usize>, Option<usize>, Option<usize>),
+    metric: Metric,
 }
 
 pub fn writer<D: Distance>(db: RawDb, index: u16, dim: usize, tmp: &Path, private: bool) -> Writer<D> {
